@@ -453,13 +453,24 @@ def defined_before_used(ctx):
     NONE = m.enum('CO_ERR_NONE')
     for (kind, init, inputs, conts, props) in KINDS:
         m.need(init, *conts)
-        trs = _run(m, init, dict(inputs), filt=lambda k, fld: fld in TRANSFER)
+        # every object-size class (basic entries up to 4 bytes take a different branch than buffered ones) and,
+        # last, the size left unbound so that every branch on it is explored
         mw = None
-        for t in trs:
-            if t.ret != NONE:
+        for size in (1, 2, 4, 5, 20, None):
+            inp = dict(inputs)
+            if 'call:COSdoGetSize' in inp:
+                if size is None:
+                    del inp['call:COSdoGetSize']
+                else:
+                    inp['call:COSdoGetSize'] = size
+            elif size not in (20,):
                 continue
-            w = set(e[4] for e in t.stores())
-            mw = w if mw is None else (mw & w)
+            trs = _run(m, init, inp, filt=lambda k, fld: fld in TRANSFER)
+            for t in trs:
+                if t.ret != NONE:
+                    continue
+                w = set(e[4] for e in t.stores())
+                mw = w if mw is None else (mw & w)
         if mw is None:
             ctx.broke(props, 'p_sdo2: initiator %s has no successful path under the folded inputs' % init)
             continue
